@@ -8,6 +8,7 @@ import (
 	"strings"
 
 	"github.com/akrennmair/updog"
+	"github.com/akrennmair/updog/zzverif/flk"
 	"github.com/akrennmair/updog/zzverif/ix"
 	"github.com/akrennmair/updog/zzverif/model"
 	"github.com/akrennmair/updog/zzverif/rt"
@@ -187,6 +188,7 @@ type c01Args struct {
 }
 
 func c01Worker(ctx *rt.Ctx, job *rt.Job) []*rt.Violation {
+	flk.Sequential(true) // single goroutine: a lock of updog or bbolt that cannot be taken now never will be (reported as a hang)
 	var a c01Args
 	job.Decode(&a)
 	switch a.Space {
@@ -321,7 +323,9 @@ func c01SpaceA(ctx *rt.Ctx, job *rt.Job, a c01Args) []*rt.Violation {
 
 // ---- Space B: boundary family ----------------------------------------------------------
 
-var spaceBStrings = []string{"", "x", "é", "\xff\x00", "a\"b", strings.Repeat("L", 300)}
+// two long values that differ only in their last byte, and one that is a prefix of them (a key derived from a
+// truncated or bounded copy of column+value merges them)
+var spaceBStrings = []string{"", "x", "é", "\xff\x00", "a\"b", strings.Repeat("L", 300), strings.Repeat("L", 299) + "M", strings.Repeat("L", 61), strings.Repeat("L", 60) + "M", strings.Repeat("L", 57)}
 
 func spaceBBounds(n int, reduced bool) []int {
 	cand := []int{0, 1, 2, 999, 1000, 1001, 4095, 4096, 4097, 65535, 65536, 65537, n - 1, n}
@@ -580,6 +584,11 @@ func c01Run(ctx *rt.Ctx) []*rt.Violation {
 	}
 	outs := rt.RunJobs(ctx, jobs, rt.SpawnOpt{})
 	vs := rt.Collect(ctx, outs, nil)
+	// an expression object executed, edited in place by the caller, and executed again (no cache involved)
+	if v := c03EditedCfg(ctx, []c03Cfg{{Preload: false, Cache: "none"}, {Preload: true, Cache: "none"}}); v != nil {
+		v.Prop = "C01"
+		vs = append(vs, v)
+	}
 	// the excluded NUL input, executed and reported separately
 	nc := c01NulCase()
 	if v := c01CheckCase(ctx, nc); v != nil {
@@ -595,6 +604,13 @@ func c01Run(ctx *rt.Ctx) []*rt.Violation {
 }
 
 func c01Replay(ctx *rt.Ctx, v *rt.Violation) *rt.Violation {
+	if v.Kind == "edited" {
+		r := c03EditedCfg(ctx, []c03Cfg{{Preload: false, Cache: "none"}, {Preload: true, Cache: "none"}})
+		if r != nil {
+			r.Prop = "C01"
+		}
+		return r
+	}
 	var c c01Case
 	if err := json.Unmarshal(v.Case, &c); err != nil {
 		rt.Harnessf("case: %v", err)
